@@ -37,17 +37,28 @@ const paramKVFinding = "F40" // fixed in /repo; the exclusion is active only whi
 const unstableChars = "İȺ\u212a"
 
 type MaskCase struct {
-	Pack    string   `json:"pack"`    // TxSql | TxSqlParam | TxDbc
-	Ver     int32    `json:"ver"`     // protocol version
-	Via     string   `json:"via"`     // "process": Process() on a filled pack; "topack": encode, then ToPack (Read + Process)
-	Style   string   `json:"style"`   // space | semi | mixed (which separators occur; informational)
-	Tokens  []Tok    `json:"tokens"`  // the connection string
-	Markers []string `json:"markers"` // the secret values that must disappear
+	Pack    string   `json:"pack"`             // TxSql | TxSqlParam | TxDbc
+	Ver     int32    `json:"ver"`              // protocol version
+	Via     string   `json:"via"`              // "process": Process() on a filled pack; "topack": encode, then ToPack (Read + Process)
+	Style   string   `json:"style"`            // space | semi | mixed (which separators occur; informational)
+	Tokens  []Tok    `json:"tokens"`           // the connection string
+	Markers []string `json:"markers"`          // the secret values that must disappear
+	Pad     int      `json:"pad,omitempty"`    // bytes of filler in one extra "options=xxxx" token (long connection strings)
+	PadAt   int      `json:"pad_at,omitempty"` // token index before which the filler token is inserted
 }
 
 func (c MaskCase) dbc() string {
 	var sb strings.Builder
-	for _, t := range c.Tokens {
+	sep := " "
+	if c.Style == "semi" {
+		sep = ";"
+	}
+	for i, t := range c.Tokens {
+		if c.Pad > 0 && i == c.PadAt%len(c.Tokens) {
+			sb.WriteString("options=")
+			sb.WriteString(strings.Repeat("x", c.Pad))
+			sb.WriteString(sep)
+		}
 		if t.K != "" {
 			sb.WriteString(t.K)
 			sb.WriteString("=")
@@ -195,6 +206,11 @@ func drawMask(t *rapid.T) MaskCase {
 			tok.Sep = drawSep(t, c.Style)
 		}
 		c.Tokens = append(c.Tokens, tok)
+	}
+	// one case in six is a long connection string (lengths around 4096, 32768 and close to the 16-bit limit)
+	if rapid.IntRange(0, 5).Draw(t, "long") == 0 {
+		c.Pad = rapid.SampledFrom([]int{3900, 4000, 4050, 4090, 4096, 4200, 8192, 32700, 32768, 60000}).Draw(t, "pad")
+		c.PadAt = rapid.IntRange(0, 8).Draw(t, "padat")
 	}
 	return c
 }
